@@ -45,7 +45,8 @@ CONSTANTS Keys,          \* abstract keys: sequences of symbols (lexicographic o
           Sim,           \* TRUE: parameters are drawn from the pseudo random stream rnd (one successor per action instance)
           SeedSpace,     \* simulation: number of initial values of rnd
           EmitDepth,     \* print the history as JSON when a behaviour has this many steps (0 = never)
-          ScriptNo       \* > 0: follow Scripts[ScriptNo] (directed behaviours; expected results still come from this module)
+          ScriptNo       \* 0: none; n in 1..NScripts: follow Scripts[n]; 99: every script (one initial state each)
+                         \* (directed behaviours; the expected results still come from this module)
 
 \* key universes for the cfg files (a cfg cannot spell tuples): Keys <- Keys3 etc.
 Keys3 == {<<1>>, <<1, 2>>, <<2>>}
@@ -213,13 +214,14 @@ ExpFor(tg, F(_)) == LET C == Cands(tg) IN [c \in 1..Len(C) |-> [ts |-> past[C[c]
 
 StJson(m) == [i \in 1..Len(KeySeq) |-> [x \in 1..Len(m[KeySeq[i]]) |-> <<m[KeySeq[i]][x].v, m[KeySeq[i]][x].t>>]]
 
+NScripts == 5
 Init ==
   /\ map = EmptyMap /\ ts = 0 /\ past = <<[map |-> EmptyMap, ts |-> 0]>>
   /\ snaps = [s \in 1..MaxSnaps |-> NoSnap] /\ readers = [r \in 1..MaxReaders |-> NoReader]
   /\ base = [map |-> EmptyMap, ts |-> 0] /\ liveId = 0 /\ pend = {}
   /\ lastFl = 0 /\ dirty = TRUE      \* a fresh tree starts with a mutated empty leaf and no stored root
   /\ nextv = 1 /\ nfail = 0 /\ hist = <<>>
-  /\ rnd \in (IF Sim THEN 1..SeedSpace ELSE {1})
+  /\ rnd \in (IF Sim THEN 1..SeedSpace ELSE IF ScriptNo = 99 THEN 1..NScripts ELSE {1})
 
 CanStep == Len(hist) < MaxOps
 \* every history entry carries the abstract state after the step
@@ -540,7 +542,8 @@ Scripts == <<
     [op |-> "reopen"], [op |-> "history", tg |-> 0, k |-> <<1>>, off |-> 0, desc |-> TRUE, lim |-> 4], [op |-> "bulk", kv |-> <<B(<<2>>, 0)>>],
     [op |-> "reopen"], [op |-> "get", tg |-> 0, k |-> <<2>>]>>
 >>
-Script == IF ScriptNo = 0 THEN <<>> ELSE Scripts[ScriptNo]
+ASSUME NScripts = Len(Scripts)
+Script == IF ScriptNo = 0 THEN <<>> ELSE IF ScriptNo # 99 THEN Scripts[ScriptNo] ELSE Scripts[rnd]   \* rnd is constant unless Sim
 MatchStep(e, d) ==
   /\ e.op = d.op
   /\ CASE d.op = "bulk" -> /\ Len(e.kvts) = Len(d.kv)
@@ -554,7 +557,7 @@ MatchStep(e, d) ==
        [] d.op = "history" -> e.tg = d.tg /\ e.k = d.k /\ e.off = d.off /\ e.desc = d.desc /\ e.lim = d.lim
        [] OTHER -> TRUE
 ScriptNext == /\ Len(hist) < Len(Script) /\ McNext /\ MatchStep(hist'[Len(hist')], Script[Len(hist')])
-Next == IF ScriptNo > 0 THEN ScriptNext ELSE IF Sim THEN SimNext ELSE McNext
+Next == IF ScriptNo # 0 THEN ScriptNext ELSE IF Sim THEN SimNext ELSE McNext
 
 Spec == Init /\ [][Next]_vars
 
@@ -597,7 +600,7 @@ StoredRootOK == Decision = "code" =>
                   /\ (lastFl # 0 => base = past[lastFl])
 
 \* behaviours for replay on the real tree
-EmitAt == IF ScriptNo > 0 THEN Len(Script) ELSE EmitDepth
+EmitAt == IF ScriptNo # 0 THEN Len(Script) ELSE EmitDepth
 Emit == (EmitAt > 0 /\ Len(hist) = EmitAt) => PrintT(<<"JSON:", ToJson([keys |-> KeySeq, ops |-> hist])>>)
 \* the history is observation only (BFS reaches a state first with the fewest steps, i.e. the largest remaining budget)
 View == <<map, ts, past, snaps, readers, base, liveId, pend, lastFl, dirty, nextv, nfail>>
